@@ -224,7 +224,12 @@ where
     // If we have more attempts and there's a delay, set up hedge timing
     if max_attempts > 1 {
         match first_delay {
-            Some(delay) if delay > Duration::ZERO => {
+            // A per-attempt delay function may return zero for the first hedge and a real
+            // delay for later ones: only a uniformly zero delay means parallel mode
+            Some(delay)
+                if delay > Duration::ZERO
+                    || matches!(config.delay, crate::config::HedgeDelay::Dynamic(_)) =>
+            {
                 // Latency mode: wait for delay or result
                 let mut delay_fut = std::pin::pin!(tokio::time::sleep(delay));
 
